@@ -15,7 +15,10 @@ TRUSTED = c14.TRUSTED
 RULE = ("(a) guided schedules with frequent drops, client 0 compared step by step with the Lean model (every reconnect "
         "must carry bind + exactly the owed commands); (b) two real clients with random drop sequences on both sides "
         "(in-flight commands and answers lost), then stable connectivity: the oracle requires key, verifier, versions "
-        "once each and every send_message() delivered to the peer exactly once and in order; distinct = distinct traces")
+        "once each and every send_message() delivered to the peer exactly once and in order; (c) the same oracle with two "
+        "clients on their real connection stack (real twisted ClientService, real autobahn handshake with the real server "
+        "protocol over in-memory pipes; refused and unanswered reconnection attempts, minutes of virtual time); (d) one "
+        "long outage on the real ClientService as the client constructs it; distinct = distinct traces")
 
 
 def cases(rng, tier):
@@ -30,6 +33,10 @@ def cases(rng, tier):
     for _ in range(m):
         out.append(dict(kind="pair", seed=rng.randrange(10**9), nmsg=[rng.randrange(0, 5), rng.randrange(0, 5)],
                         pdrop=rng.choice([0.02, 0.05, 0.1, 0.2]), steps=rng.choice([100, 250, 500])))
+    # the same on the real connection stack (real ClientService, real autobahn handshake, real server protocol)
+    for _ in range(25 if tier == "quick" else 600):
+        out.append(dict(kind="real", seed=rng.randrange(10**9), nmsg=[rng.randrange(0, 4), rng.randrange(0, 4)],
+                        pdrop=rng.choice([0.05, 0.15, 0.3]), steps=rng.choice([30, 60, 120])))
     # long sessions: many phases in the mailbox, then late drops (every re-open replays the whole
     # mailbox history, however long it is)
     for k in range(3 if tier == "quick" else 40):
@@ -152,6 +159,81 @@ EXTRA_TARGETS = ["wvsearch"]
 evidence_extra = mc.cert_stats
 
 
+def run_real(case):
+    """two clients on their REAL connection stack (worlds/realstack.py): connections are lost, reconnection attempts are
+    refused or get TCP without an answer to the WebSocket upgrade, time passes; then the server is reachable for good.
+    Within the grace period everything owed must have happened exactly once."""
+    from ..worlds.realstack import RealWorld
+    rng = random.Random(case["seed"])
+    viol = []
+    with RealWorld(seed=case["seed"]) as W:
+        cl = [W.add_client(), W.add_client()]
+        code = "9-drumbeat-uproot"
+        sent = [[], []]
+        started = [False, False]
+        ndrops = 0
+        modes = set()
+        for step in range(case["steps"]):
+            ci = rng.randrange(2)
+            c = cl[ci]
+            r = rng.random()
+            if not started[ci] and r < 0.3:
+                W.api(c, "set_code", code)
+                started[ci] = True
+            elif r < 0.45 and len(sent[ci]) < case["nmsg"][ci]:
+                body = bytes([ci, len(sent[ci]) % 256]) * (1 + len(sent[ci]) % 7)
+                W.api(c, "send_message", body)
+                sent[ci].append(body.hex())
+            elif r < 0.45 + case["pdrop"] and c.connected:
+                c.ep.mode = rng.choice(["up", "refuse", "mute", "mute"])
+                c.ep.mute_for = rng.choice([0.0, 0.2, 3.0])
+                modes.add(c.ep.mode)
+                c.link.drop()
+                ndrops += 1
+            elif r < 0.6:
+                c.ep.mode = rng.choice(["up", "up", "refuse", "mute"])
+                modes.add(c.ep.mode)
+            elif r < 0.8:
+                W.advance(rng.choice([0.05, 0.3, 1.0, 2.5, 7.0, 20.0, 65.0]))
+            else:
+                W.settle()
+        for ci in (0, 1):
+            cl[ci].ep.mode = "up"
+            if not started[ci]:
+                W.api(cl[ci], "set_code", code)
+            while len(sent[ci]) < case["nmsg"][ci]:
+                body = bytes([ci, len(sent[ci]) % 256]) * (1 + len(sent[ci]) % 7)
+                W.api(cl[ci], "send_message", body)
+                sent[ci].append(body.hex())
+        W.advance(400.0, step=1.0)     # ClientService's default back-off never exceeds about a minute
+        for ci in (0, 1):
+            c = cl[ci]
+            if not c.connected:
+                viol.append(("not-reconnected", f"client {ci}: the server has been reachable for 400 s and the client is not connected "
+                             f"({c.ep.attempts} attempts, {ndrops} drops; logged {W.logged[:2]})"))
+            names = [n for n, v in c.events]
+            for once in ("code", "key", "verifier", "versions"):
+                k = names.count(once)
+                if k != 1:
+                    viol.append((("event-lost:" if k == 0 else "event-repeated:") + once,
+                                 f"client {ci}: {once} notified {k} times after {ndrops} drops: {names}"))
+            got = [v for n, v in c.events if n == "message"]
+            want = sent[1 - ci]
+            if got != want:
+                if got == want[:len(got)]:
+                    viol.append(("message-lost", f"client {ci} received {got}, peer sent {want} ({ndrops} drops)"))
+                else:
+                    viol.append(("message-repeated-or-reordered", f"client {ci} received {got}, peer sent {want}"))
+            if "closed" in names:
+                viol.append(("closed-itself", f"client {ci} closed itself: {c.events[-1]}"))
+            for ent in c.internal:
+                viol.append(("internal:" + ent[0], f"internal failure {ent}"))
+            for ent in c.api_errors:
+                viol.append(("api-raises:" + ent[1], f"API call raised {ent}"))
+        trace = [ndrops, sorted(modes)] + [[n for n, v in c.events] for c in cl]
+        return Result([], [], viol, ["real:drops=%d" % min(ndrops, 5)] + ["real:mode:" + m for m in sorted(modes)], ndrops > 0, info=dict(trace=trace))
+
+
 def run_outage(case):
     from ..worlds.mailbox import long_outage
     stuck, attempts, errors = long_outage(case["failures"])
@@ -165,6 +247,8 @@ def run_outage(case):
 def run_case(case):
     if case.get("kind") == "outage":
         return run_outage(case)
+    if case.get("kind") == "real":
+        return run_real(case)
     if case.get("kind") == "trace":
         return mc.run_trace_case(case, trace_oracle)
     if case.get("kind") == "pair":
@@ -204,7 +288,7 @@ def shrink(case):
     if case.get("kind") == "trace":
         yield from mc.trace_shrink(case)
         return
-    if case.get("kind") == "pair":
+    if case.get("kind") in ("pair", "real"):
         for k in (0, 1):
             if case["nmsg"][k] > 0:
                 c = dict(case)
